@@ -90,6 +90,12 @@ ApplyAll(ws0, recs, base, maxq, unordered) ==
 \* which record of this step names the created / moved directory in its parent
 ParentOf(recs, bit) == LET S == {k \in 1..Len(recs) : HasBit(recs[k].m, bit) /\ HasBit(recs[k].m, IN_ISDIR)} IN
                        IF S = {} THEN [ino |-> "", n |-> ""] ELSE LET k == CHOOSE k \in S : TRUE IN [ino |-> recs[k].ino, n |-> recs[k].n]
+\* a watched file was unlinked but lives on (open descriptor / other link): no DELETE_SELF among the records
+Unlinked(ws, ln) ==
+  IF ln.op = "unlink" /\ ln.ret = "ok" /\ ln.ino \in DOMAIN ws.uw
+     /\ ~\E k \in 1..Len(ln.shadow) : ln.shadow[k].ino = ln.ino /\ HasBit(ln.shadow[k].m, IN_DELETE_SELF)
+  THEN Note([ws EXCEPT !.uoInos = @ \cup {ln.ino}], "unlinked_while_open") ELSE ws
+
 DirBook(ws, ln) ==
   IF ~ws.recursive \/ ln.ret # "ok" THEN ws
   ELSE IF ln.op = "mkdir" THEN LET p == ParentOf(ln.shadow, IN_CREATE) IN CoverNewDir(ws, p.ino, p.n, ln.ino)
@@ -97,7 +103,7 @@ DirBook(ws, ln) ==
   ELSE ws
 
 Fs == /\ IsKind("fs")
-      /\ W' = [w \in DOMAIN W |-> DirBook(ApplyAll(W[w], Line.shadow, seq, g.maxq, Line.op = "par"), Line)]
+      /\ W' = [w \in DOMAIN W |-> Unlinked(DirBook(ApplyAll(W[w], Line.shadow, seq, g.maxq, Line.op = "par"), Line), Line)]
       /\ seq' = seq + Len(Line.shadow)
       /\ g' = IF \E k \in 1..Len(Line.shadow) : Line.shadow[k].ino \in {"?", "overflow"}
               THEN Infra("shadow record without object") ELSE g
@@ -210,11 +216,16 @@ Crash == /\ IsKind("crash")
          /\ g' = GBad({"*"}, "crash:" \o Line.cls)
          /\ UNCHANGED <<W, seq>> /\ Next1
 
-Other == /\ l <= Len(Trace) /\ Line.k \in {"recurse", "bad"}
+\* fault injection: the next read(2) on the inotify descriptor fails once
+Fault == /\ IsKind("fault")
+         /\ W' = IF Line.w \in DOMAIN W /\ Line.on THEN [W EXCEPT ![Line.w] = [@ EXCEPT !.flags = @ \cup {"readfault"}]] ELSE W
+         /\ UNCHANGED <<seq, g>> /\ Next1
+
+Other == /\ l <= Len(Trace) /\ Line.k \in {"recurse", "bad", "chdir"}
          /\ g' = IF Line.k = "bad" THEN Infra("bad step") ELSE g
          /\ UNCHANGED <<W, seq>> /\ Next1
 
-Next == (Reset \/ End \/ New \/ Fs \/ Call \/ JoinT \/ Recv \/ Drain \/ Obs \/ Model \/ Crash \/ Other)
+Next == (Reset \/ End \/ New \/ Fs \/ Call \/ JoinT \/ Recv \/ Drain \/ Obs \/ Model \/ Fault \/ Crash \/ Other)
         /\ TLCSet(1, IF TLCGet(1) > l' THEN TLCGet(1) ELSE l')
 
 Spec == Init /\ [][Next]_vars
